@@ -38,6 +38,7 @@ def ref_escape(fn, data):
 
 
 def judge20(world):
+    world = dict(world, regen=True)      # render a second time on the same Template object after a call with other kwargs
     v, exp, real = T.judge(world)
     if exp["kind"] in ("ok", "exc") and real[0] == "ok" and exp.get("trace") is not None:
         out = real[1]
@@ -129,7 +130,10 @@ V_DIRECT = [{}, {"autoescape": None}, {"autoescape": "esc2"}, {"autoescape": "xh
 
 def v_tags(valname):
     return [("expr", valname, " "), ("expr", valname, ""), ("raw", valname),
-            ("module", "M(%s)" % valname), ("expr", "[%s][0]" % valname, " ")]
+            ("module", "M(%s)" % valname), ("expr", "[%s][0]" % valname, " "),
+            # the source text begins with a call of an escape function and ends with ')', yet the value is not that call's
+            ("expr", 'xhtml_escape("") if z else (%s)' % valname, " "),
+            ("expr", 'esc2("") if z else (%s)' % valname, " ")]
 
 
 def v_cases(tier, part):
